@@ -12,6 +12,54 @@ import json
 import textwrap
 
 
+def always_update_names(module, name="inputs_to_always_update"):
+    """-> (sorted attribute names, note): the strings of the collection assigned to `name` anywhere in the module"""
+    try:
+        tree = ast.parse(textwrap.dedent(inspect.getsource(module)))
+    except Exception as e:  # noqa: BLE001
+        return [], f"source not available: {type(e).__name__}"
+    assigns = {}
+    for node in ast.walk(tree):
+        targets, value = [], None
+        if isinstance(node, ast.Assign):
+            targets, value = node.targets, node.value
+        elif isinstance(node, ast.AnnAssign) and node.value is not None:
+            targets, value = [node.target], node.value
+        for t in targets:
+            key = t.id if isinstance(t, ast.Name) else t.attr if isinstance(t, ast.Attribute) else None
+            if key:
+                assigns.setdefault(key, []).append(value)
+
+    def strings(value, depth=0):
+        if depth > 5:
+            return None
+        if isinstance(value, ast.Call) and isinstance(value.func, ast.Name) \
+                and value.func.id in ("set", "frozenset", "tuple", "list", "sorted") and not value.keywords:
+            return [] if not value.args else strings(value.args[0], depth + 1) if len(value.args) == 1 else None
+        if isinstance(value, (ast.Name, ast.Attribute)):
+            key = value.id if isinstance(value, ast.Name) else value.attr
+            found = [strings(v, depth + 1) for v in assigns.get(key, [])]
+            return found[0] if len(found) == 1 else None
+        try:
+            got = ast.literal_eval(value)
+        except Exception:  # noqa: BLE001
+            return None
+        if isinstance(got, (set, frozenset, tuple, list)) and all(isinstance(x, str) for x in got):
+            return list(got)
+        return None
+
+    values = assigns.get(name, [])
+    if not values:
+        return [], f"no assignment to {name} in {module.__name__}"
+    out = set()
+    for v in values:
+        got = strings(v)
+        if got is None:
+            return [], f"an assignment to {name} in {module.__name__} is not a collection of string constants"
+        out.update(got)
+    return sorted(out), ""
+
+
 def generate(write):
     import montepy
     from montepy._cell_data_control import CellDataPrintController
@@ -21,12 +69,12 @@ def generate(write):
     for cls, (attr, cant_repeat) in montepy.Cell._INPUTS_TO_PROPERTY.items():
         prefix = cls._class_prefix()
         rows.append((cls.__name__, attr, bool(cant_repeat), prefix, bool(ctl[prefix])))
-    # the set literal `inputs_to_always_update` of Cells.update_pointers (from the AST)
-    always = []
-    src = textwrap.dedent(inspect.getsource(montepy.cells.Cells.update_pointers))
-    for node in ast.walk(ast.parse(src)):
-        if isinstance(node, ast.Assign) and getattr(node.targets[0], "id", "") == "inputs_to_always_update":
-            always = sorted(ast.literal_eval(node.value))
+    # the set `inputs_to_always_update` of cells.py (syntactic: the code never reads the set, so there is nothing to
+    # observe; no theorem consumes it either).  Round 7: looked for in the whole module (wherever a harmless rewrite
+    # puts the assignment: the method, a helper, the class body, the module), a name on the right-hand side is
+    # followed to its own assignment, set()/frozenset()/tuple()/list() around a literal are looked through;
+    # an unexpected shape gives the empty list and a note, never an exception of the translator.
+    always, always_note = always_update_names(montepy.cells)
     body = "namespace MontePyVerif.Gen\n\n"
     body += "/-- `cell.py: Cell._INPUTS_TO_PROPERTY` in dict order: (class, attribute, cant_repeat, `_class_prefix()`,\n"
     body += "    `CellDataPrintController()[prefix]` when nothing was set) -/\n"
@@ -36,6 +84,8 @@ def generate(write):
     ) + "]\n"
     body += "/-- `cells.py: Cells.update_pointers: inputs_to_always_update` -/\n"
     body += "def cellDataAlwaysUpdate : List String := [" + ", ".join(json.dumps(a) for a in always) + "]\n"
+    if always_note:
+        body += "-- not read: " + json.dumps(always_note) + "\n"
     # the keyword table of the lexer that reads cell cards: the prefix of every parameter a cell card can carry
     from montepy.input_parser.tokens import CellLexer
 
